@@ -45,6 +45,7 @@
 #endif
 
 #include "archive.h"
+#include "archive_private.h"
 
 #if defined(_WIN32) && !defined(__CYGWIN__)
 int
@@ -93,8 +94,13 @@ static const char *	lookup_uname_helper(struct name_cache *, id_t uid);
 int
 archive_read_disk_set_standard_lookup(struct archive *a)
 {
-	struct name_cache *ucache = malloc(sizeof(struct name_cache));
-	struct name_cache *gcache = malloc(sizeof(struct name_cache));
+	struct name_cache *ucache, *gcache;
+
+	/* The setters below refuse a failed handle; the caches would leak. */
+	archive_check_magic(a, ARCHIVE_READ_DISK_MAGIC, ARCHIVE_STATE_ANY,
+	    "archive_read_disk_set_standard_lookup");
+	ucache = malloc(sizeof(struct name_cache));
+	gcache = malloc(sizeof(struct name_cache));
 
 	if (ucache == NULL || gcache == NULL) {
 		archive_set_error(a, ENOMEM,
